@@ -136,7 +136,7 @@ MODULE_ALIASES = {
 }
 
 
-UFUNCS_WITH_OUT = {"numpy.add", "numpy.subtract", "numpy.maximum.accumulate"}
+UFUNCS_WITH_OUT = {"numpy.add", "numpy.subtract", "numpy.maximum.accumulate", "numpy.divide", "numpy.true_divide"}
 
 
 def _literal(node, env):
@@ -195,6 +195,8 @@ def module_env_from_ast(tree):
                         env[n.targets[0].id] = lit  # a module-level constant table
                 elif isinstance(n.value, ast.Call) and isinstance(n.value.func, ast.Name) and n.value.func.id == "namedtuple":
                     env[n.targets[0].id] = RepoFunc(n.targets[0].id)  # a record constructor defined by the module
+                elif isinstance(n.value, ast.Call) and isinstance(n.value.func, ast.Name) and n.value.func.id == "partial":
+                    env[n.targets[0].id] = RepoFunc(n.targets[0].id)  # a module-level callable (shadows a builtin of that name in this module): called through its contract
                 elif isinstance(n.value, ast.Call) and n.targets[0].id.isupper():
                     # module-level feature flags (HAS_NUMBAGG = module_available(...)): an unknown but fixed boolean
                     o = Opaque("flag:" + n.targets[0].id)
